@@ -92,7 +92,7 @@ def _gen_stmt(rng, layout, here, is_init, cfg, idx, in_class=False):
         if rel:
             spec = rel
     if k == "from":
-        names = NAMES + MODS + ["s"]
+        names = NAMES + MODS + ["s", "m"]
         name = rng.choice(names)
         if spec.startswith(".") and spec.strip(".") == "" and rng.random() < 0.5:
             name = rng.choice(MODS + ["s"])
@@ -103,7 +103,15 @@ def _gen_stmt(rng, layout, here, is_init, cfg, idx, in_class=False):
         return {"s": "star", "mod": spec}
     if k == "all":
         return {"s": "all", "names": rng.sample(NAMES + ["zz"], rng.choice([0, 1, 2, 3]))}
-    return {"s": "allplus", "mod": target, "form": rng.choice(["from", "import", "aug"]), "names": rng.sample(NAMES, rng.choice([0, 1, 2])), "i": idx}
+    form = rng.choice(["from", "import", "aug", "via", "via"])
+    st = {"s": "allplus", "mod": target, "form": form, "names": rng.sample(NAMES, rng.choice([0, 1, 2])), "i": idx}
+    if form == "via":
+        # the spliced module is reached through a name imported from somewhere else (possibly an alias of a module)
+        if "." in target and rng.random() < 0.6:
+            st["mod"], st["name"] = target.rsplit(".", 1)
+        else:
+            st["name"] = rng.choice(MODS + ["s", "m", "f"])
+    return st
 
 
 def _render_stmt(st, ind=""):
@@ -130,6 +138,8 @@ def _render_stmt(st, ind=""):
             return f"from {st['mod']} import __all__ as _all{i}\n__all__ = {st['names']!r} + _all{i}\n"
         if st["form"] == "import":
             return f"import {st['mod']} as _m{i}\n__all__ = [*_m{i}.__all__, {', '.join(repr(n) for n in st['names'])}]\n"
+        if st["form"] == "via":
+            return f"from {st['mod']} import {st['name']} as _m{i}\n__all__ = {st['names']!r} + _m{i}.__all__\n"
         return f"import {st['mod']} as _m{i}\n__all__ = {st['names']!r}\n__all__ += _m{i}.__all__\n"
     if s == "syntax_error":
         return "def broken(:\n"
@@ -171,6 +181,18 @@ def generate(rng, opts):
             if not cfg["wildcards"]:
                 stmts = [s for s in stmts if s["s"] != "star"]
             modules[mp] = {"init": is_init, "stmts": stmts}
+    if cfg["allplus"] and rng.random() < 0.3:
+        # motif: a ring of __all__ splices in which every hop goes through an alias of a module
+        dotted = [mp for mp in modules if "." in mp and mp.split(".")[0] in layout]
+        if dotted:
+            ring = rng.sample(dotted, min(len(dotted), rng.choice([1, 1, 2])))
+            holders = [rng.choice([mp for mp in modules if mp.split(".")[0] in layout]) for _ in ring]
+            for i, x in enumerate(ring):
+                parent, leaf = x.rsplit(".", 1)
+                modules[holders[i]]["stmts"].insert(0, {"s": "from", "mod": parent, "name": leaf, "as": f"m{i}"})
+            for i, x in enumerate(ring):
+                j = (i + 1) % len(ring)
+                modules[x]["stmts"].append({"s": "allplus", "mod": holders[j], "name": f"m{j}", "form": "via", "names": [rng.choice(NAMES)], "i": 90 + i})
     faults = []
     if cfg["faults"]:
         victims = [mp for mp in modules if mp.split(".")[0] in extra] or list(modules)
